@@ -2034,6 +2034,13 @@ func ruleNoSkip(w *World, r *Report, fn string) {
 							if _, ok := ld.(*ssa.FreeVar); ok {
 								scratch = false
 							}
+							// a list kept in a field of an object reached through a pointer (a group looked
+							// up in a map): it outlives the iteration unless the object was made in it
+							if fa, ok := ld.(*ssa.FieldAddr); ok {
+								if al, isAl := fa.X.(*ssa.Alloc); !isAl || !blocks[al.Block()] || al.Heap {
+									scratch = false
+								}
+							}
 						}
 					}
 					if scratch && len(ai.Bases) > 0 {
